@@ -48,7 +48,8 @@ const c08Base = 4 << 20
 var c08PerByte = map[string]int{"cbe": 4 << 10, "cte": 24 << 10}
 
 // families listed as open known findings (excluded by construction, counted)
-var c08KnownFamilies = map[string]string{"cte-open-braces": "S68-cte-map-as-key-nesting-superlinear"}
+var c08KnownFamilies = map[string]string{"cte-open-braces": "S68-cte-map-as-key-nesting-superlinear",
+	"cte-long-verbatim-sentinel": "S88-cte-long-verbatim-sentinel-superlinear"}
 
 var c08WarmOnce sync.Once
 
